@@ -715,6 +715,58 @@ func (c *Check) notificationFromErr(rule string) {
 				c.require(hit == nil, rule, p.Name(walk), "stop at *Notification", p.InstrPos(in), "once a *Notification is found the walk returns without descending into it")
 			}
 		}
+		// a node of any other class is still descended into: classifying it
+		// does not end the visit (a wrapper that is itself an UpdateError may
+		// hide a stronger error)
+		nCls := 0
+		for _, blk := range walk.Blocks {
+			for _, in := range blk.Instrs {
+				ta, ok := in.(*ssa.TypeAssert)
+				if !ok || !ta.CommaOk {
+					continue
+				}
+				switch typeKey(ta.AssertedType) {
+				case "*TreatAsWithdrawUpdateErr", "*AttrDiscardUpdateErr", "UpdateError":
+				default:
+					continue
+				}
+				var okBlk *ssa.BasicBlock
+				for _, r := range *ta.Referrers() {
+					if ex, isE := r.(*ssa.Extract); isE && ex.Index == 1 {
+						for _, rr := range *ex.Referrers() {
+							if iff, isIf := rr.(*ssa.If); isIf {
+								okBlk = iff.Block().Succs[0]
+							}
+						}
+					}
+				}
+				if okBlk == nil {
+					continue
+				}
+				nCls++
+				hit := pathSearch(walk, okBlk.Instrs[0], func(x ssa.Instruction) bool {
+					switch y := x.(type) {
+					case *ssa.TypeAssert:
+						if it, isI := y.AssertedType.Underlying().(*types.Interface); isI {
+							for i := 0; i < it.NumMethods(); i++ {
+								if it.Method(i).Name() == "Unwrap" {
+									return true
+								}
+							}
+						}
+					case ssa.CallInstruction:
+						cc := y.Common()
+						return cc.IsInvoke() && cc.Method.Name() == "Unwrap"
+					}
+					return false
+				}, nil)
+				c.require(hit != nil, rule, p.Name(walk), "a classified node is still descended into: "+typeKey(ta.AssertedType), p.InstrPos(in),
+					"after an error is recorded as "+typeKey(ta.AssertedType)+" the walk still asks it for Unwrap(): what it wraps may be stronger")
+			}
+		}
+		if nCls == 0 {
+			c.ok(rule, p.Name(walk), "classified nodes descended into", p.Pos(walk.Pos()), "no comma-ok class assertions in the walker (classes are told apart otherwise)")
+		}
 	}
 	for _, t := range []string{"TreatAsWithdrawUpdateErr", "AttrDiscardUpdateErr"} {
 		g := p.Fn(t + ".AsSessionReset")
